@@ -100,9 +100,7 @@ func verifC12Step(sut, ref verifBuf, cfg verifC12Cfg, maxLen, maxOff int) {
 		verif.Assert("read-bytes", verifSameBytes(p1, p2, n2))
 	case 1: // ReadAt
 		n := verif.Len("ralen", 0, maxLen)
-		off := verif.Int64("raoff")
-		verif.Assume(off >= -1)
-		verif.Assume(off <= int64(maxOff))
+		off := int64(verif.Len("raoff", -1, maxOff))
 		p1, p2 := make([]byte, n), make([]byte, n)
 		n1, _ := sut.ReadAt(p1, off)
 		n2, _ := ref.ReadAt(p2, off)
@@ -112,9 +110,7 @@ func verifC12Step(sut, ref verifBuf, cfg verifC12Cfg, maxLen, maxOff int) {
 		verif.Assert("readat-bytes", verifSameBytes(p1, p2, n2))
 	case 2: // Seek within the written extent
 		whence := verif.Choice("whence", 3)
-		off := verif.Int64("soff")
-		verif.Assume(off >= -int64(maxOff))
-		verif.Assume(off <= int64(maxOff))
+		off := int64(verif.Len("soff", -maxOff, maxOff))
 		var target int64
 		switch whence {
 		case io.SeekStart:
@@ -151,9 +147,7 @@ func verifC12Step(sut, ref verifBuf, cfg verifC12Cfg, maxLen, maxOff int) {
 		verif.Assert("write-count", n1 == n2)
 	case 5: // WriteAt
 		n := verif.Len("walen", 0, maxLen)
-		off := verif.Int64("waoff")
-		verif.Assume(off >= -1)
-		verif.Assume(off <= int64(maxOff))
+		off := int64(verif.Len("waoff", -1, maxOff))
 		if cfg.onlyZeroLenGap {
 			verif.Assume(n == 0)
 		}
@@ -193,38 +187,83 @@ func verifC12Run(sut, ref verifBuf, cfg verifC12Cfg, k, maxLen, maxOff int) {
 	verifC12Contents(sut, ref)
 }
 
-func verifNewMemoryFile() *File {
-	c := verif.Len("capacity", 0, verif.Bound("capacity", 2, 4))
+// ---- sequences from the freshly created buffer -------------------------
+
+func verifNewMemoryFile(c int) *File {
 	arr := make([]byte, 0, c) // as memory.store.Create does
 	return newFile(&arr, &sync.RWMutex{})
 }
 
-func verifNewBufferRW() *base.BufferReadWriter {
-	c := verif.Len("capacity", 0, verif.Bound("capacity", 2, 4))
-	return base.NewBufferReadWriter(uint64(c))
-}
-
-// VerifMemoryFileVsOSFile: memory.File against an OS file.
+// VerifMemoryFileVsOSFile: memory.File as created by the store, k operations.
 func VerifMemoryFileVsOSFile() {
-	k := verif.Bound("ops", 3, 4)
-	verifC12Run(verifNewMemoryFile(), verifRefFile(nil), verifC12Cfg{writable: true},
-		k, verif.Bound("len", 2, 3), verif.Bound("off", 3, 5))
+	c := verif.Len("capacity", 0, verif.Bound("capacity", 2, 3))
+	verifC12Run(verifNewMemoryFile(c), verifRefFile(nil), verifC12Cfg{writable: true},
+		verif.Bound("ops", 2, 3), verif.Bound("len", 2, 2), verif.Bound("off", 3, 3))
 }
 
 // VerifBufferReadWriterVsOSFile: base.BufferReadWriter (aws.WriteAtBuffer)
-// against an OS file.
+// as created by NewBufferReadWriter, k operations.
 func VerifBufferReadWriterVsOSFile() {
-	k := verif.Bound("ops", 3, 4)
-	verifC12Run(verifNewBufferRW(), verifRefFile(nil), verifC12Cfg{writable: true},
-		k, verif.Bound("len", 2, 3), verif.Bound("off", 3, 5))
+	c := verif.Len("capacity", 0, verif.Bound("capacity", 2, 3))
+	verifC12Run(base.NewBufferReadWriter(uint64(c)), verifRefFile(nil), verifC12Cfg{writable: true},
+		verif.Bound("ops", 2, 3), verif.Bound("len", 2, 2), verif.Bound("off", 3, 3))
+}
+
+// ---- one operation from an arbitrary reachable state (inductive step) ----
+//
+// The state of either buffer is (visible bytes, capacity, offset); bytes
+// between length and capacity are zero in every reachable state because both
+// implementations reallocate to exactly the needed length and never shrink.
+// The harnesses below start from every such state within the bounds (content
+// bytes symbolic) and apply one arbitrary operation, which together with the
+// from-fresh harnesses above covers histories of any length over states
+// within the size bounds.
+
+// VerifMemoryFileStep: one operation on a memory.File in an arbitrary state.
+func VerifMemoryFileStep() {
+	maxContent := verif.Bound("content", 3, 5)
+	n := verif.Len("content_len", 0, maxContent)
+	spare := verif.Len("spare_capacity", 0, verif.Bound("spare", 2, 3))
+	off := verif.Len("start_offset", 0, n)
+	content := verif.Bytes("content", n)
+	arr := make([]byte, n, n+spare)
+	copy(arr, content)
+	sut := newFile(&arr, &sync.RWMutex{})
+	sut.off = int64(off)
+	ref := verifRefFile(content)
+	_, err := ref.Seek(int64(off), io.SeekStart)
+	verif.Assert("ref-seek", err == nil)
+	verifC12Run(sut, ref, verifC12Cfg{writable: true}, 1, verif.Bound("len", 2, 3), verif.Bound("off", 5, 7))
+}
+
+// VerifBufferReadWriterStep: one operation on a BufferReadWriter brought (by
+// one WriteAt and one Seek) into an arbitrary state.
+func VerifBufferReadWriterStep() {
+	maxContent := verif.Bound("content", 3, 5)
+	n := verif.Len("content_len", 0, maxContent)
+	c := verif.Len("capacity", 0, maxContent+verif.Bound("spare", 2, 3))
+	off := verif.Len("start_offset", 0, n)
+	content := verif.Bytes("content", n)
+	sut := base.NewBufferReadWriter(uint64(c))
+	ref := verifRefFile(content)
+	if n > 0 {
+		_, err := sut.WriteAt(content, 0)
+		verif.Assert("sut-prefill", err == nil)
+	}
+	_, err := sut.Seek(int64(off), io.SeekStart)
+	verif.Assert("sut-seek", err == nil)
+	_, err = ref.Seek(int64(off), io.SeekStart)
+	verif.Assert("ref-seek", err == nil)
+	verifC12Run(sut, ref, verifC12Cfg{writable: true}, 1, verif.Bound("len", 2, 3), verif.Bound("off", 5, 7))
 }
 
 // VerifBufferFileReaderVsOSFile: store.NewBufferFileReader over symbolic
-// content against an OS file holding the same content.
+// content against an OS file holding the same content (read-only surface:
+// Read, ReadAt, Seek, Size).
 func VerifBufferFileReaderVsOSFile() {
-	n := verif.Len("content_len", 0, verif.Bound("content", 3, 5))
+	n := verif.Len("content_len", 0, verif.Bound("content", 3, 4))
 	content := verif.Bytes("content", n)
 	ref := verifRefFile(content)
 	sut := storelib.NewBufferFileReader(append([]byte(nil), content...))
-	verifC12Run(sut, ref, verifC12Cfg{}, verif.Bound("rops", 3, 4), verif.Bound("len", 2, 3), verif.Bound("off", 4, 6))
+	verifC12Run(sut, ref, verifC12Cfg{}, verif.Bound("rops", 2, 3), verif.Bound("len", 2, 3), verif.Bound("off", 4, 5))
 }
